@@ -102,7 +102,7 @@ def run_property(pid, thunks, tier, meta):
         print('KNOWN-FINDING: property=%s %s [%s]' % (pid, k.get('what', f.message), f.key))
     replay_path = None
     if violations:
-        rdir = os.path.join(VERIF, '.work', 'replay')
+        rdir = os.environ.get('VERIF_REPLAY_DIR') or os.path.join(VERIF, '.work', 'replay')
         os.makedirs(rdir, exist_ok=True)
         replay_path = os.path.join(rdir, '%s.json' % pid)
         json.dump({'property': pid, 'tier': tier, 'findings': [f.to_json() for f in violations]}, open(replay_path, 'w'), indent=1)
@@ -149,8 +149,9 @@ def run_property(pid, thunks, tier, meta):
         'wall_s': wall,
         'violations': len(violations),
     }
-    os.makedirs(os.path.join(VERIF, 'evidence'), exist_ok=True)
-    with open(os.path.join(VERIF, 'evidence', '%s.json' % pid), 'w') as fh:
+    evdir = os.environ.get('VERIF_EVIDENCE_DIR') or os.path.join(VERIF, 'evidence')
+    os.makedirs(evdir, exist_ok=True)
+    with open(os.path.join(evdir, '%s.json' % pid), 'w') as fh:
         json.dump(ev, fh, indent=1, sort_keys=True)
     print('   obligations=%d discharged=%d violations=%d known=%d wall=%.1fs' % (n_inst, n_ok, len(violations), len(matched), wall))
     return 1 if violations else 0
